@@ -386,7 +386,7 @@ def main():
     aliases = UnicodeDammit.CHARSET_ALIASES
     if not isinstance(aliases, dict) or not all(isinstance(k, str) and isinstance(v, str) for k, v in aliases.items()):
         raise Shape("CHARSET_ALIASES is not a str->str dict")
-    o = ["(* GENERATED by translator/gen_c07.py from %s/bs4/dammit.py -- do not edit *)" % REPO,
+    o = ["(* GENERATED by translator/gen_c07.py from the library working tree - do not edit *)",
          "From Coq Require Import List NArith.",
          "From BS Require Import Base.Sexp Base.Types.",
          "Import ListNotations.",
